@@ -93,6 +93,7 @@ def run(res):
     res.discharged += ths
     res.coverage["print_assumptions"] = rep
 
+    facts_err = vlib.check_fact_props(res, "C20f", "span sources of the expander")
     cells = []
     for (kind, ty, val, pat, frag) in FAULTS:
         for pos in matrix.POSITIONS:
@@ -153,6 +154,7 @@ def run(res):
                       {"first_disagreement": {"invocation": dis[0].text, "difference": expstage.maclib.first_diff(dis[0].tokens, dis[0].model)}})
     if not dis:
         res.discharged.append("correspondence:expander(token-exact, spans included)")
+    vlib.report_fact_failure(res, "C20f", facts_err, "span sources of the expander")
     if not failing:
         res.discharged.append(name)
     res.coverage.update({"evaluations": len(cells) + len(controls) + len(recs), "distinct_nontrivial": len(cells),
